@@ -36,6 +36,12 @@ func (tl *TermLocation) Overlaps(other *TermLocation) bool {
 	return false
 }
 
+// inBounds reports whether the offsets of this location can be used
+// to slice a text of the given length
+func (tl *TermLocation) inBounds(textLen int) bool {
+	return tl != nil && tl.Start >= 0 && tl.Start <= tl.End && tl.End <= textLen
+}
+
 type TermLocations []*TermLocation
 
 func (t TermLocations) Len() int      { return len(t) }
